@@ -97,7 +97,7 @@ def run_e1(chk, d, be=False):
 def run_e3(chk, d):
     """deadline arithmetic of a finite timeout: interposed host clock x timeouts, single thread (mc/h_futex_e3.c)"""
     exe = os.path.join(d, 'e3')
-    cmd = ['gcc', '-O1', '-g', '-w', '-DWASM_THREADS_PTHREADS', '-Dpthread_cond_timedwait=e3_timedwait', '-I', d, '-I', os.path.join(REPO, 'w2c2'), os.path.join(d, 'm.c'),
+    cmd = ['gcc', '-O1', '-g', '-w', '-DWASM_THREADS_PTHREADS', '-Dpthread_cond_timedwait=e3_timedwait', '-Dpthread_cond_wait=e3_wait', '-I', d, '-I', os.path.join(REPO, 'w2c2'), os.path.join(d, 'm.c'),
            os.path.join(mclib.MC, 'h_futex_e3.c')] + futex_srcs() + ['-o', exe, '-lpthread']
     r = run(cmd)
     if r.returncode != 0:
@@ -125,10 +125,22 @@ def run_e3(chk, d):
                 continue
             bad.setdefault('deadline|%s' % cls, []).append('now=%d.%09d timeout=%d ns: absolute deadline given to pthread_cond_timedwait is %d.%09d, exact now+timeout is %d.%09d' % (
                 sec, nsec, to, dsec, dnsec, want[0], want[1]))
+    # negative timeouts: "wait forever" - the first blocking call must be an untimed wait, or a timed one whose deadline is at least a year away
+    negs = [l.split() for l in out.splitlines() if l.startswith('E3N ')]
+    if len(negs) != 6:
+        bad.setdefault('deadline|negative-timeout-driver', []).append('expected 6 negative-timeout cases, got %d: %s' % (len(negs), out[-300:]))
+    for _, to, how, dsec, dnsec in negs:
+        if how == 'untimed':
+            continue
+        if how == 'timed' and int(dsec) >= 1700000000 + 365 * 86400:
+            continue
+        bad.setdefault('deadline|infinite-wait-has-a-deadline', []).append('timeout=%s ns (negative = wait forever): %s' % (
+            to, 'the wait returned %s without blocking although the cell equals the expected value' % dsec if how == 'returned' else
+            'the wait blocks with the absolute deadline %s.%09d while the host clock says 1700000000.000000005' % (dsec, int(dnsec))))
     for key, msgs in sorted(bad.items()):
         chk.violation(key, {'kind': 'program', 'cases': msgs[:20], 'how_to_replay': 'python3 checks/c17.py quick (E3: mc/h_futex_e3.c)'}, '%s (%d of 330 clock x timeout cases)' % (msgs[0], len(msgs)))
     chk.cov['e3_deadline_cases'] = {'cases': len(lines), 'host_clock_answers': '5 seconds values x 6 nanosecond values (0, 1, 499999999, 500000000, 999999998, 999999999)',
-                                    'timeouts_ns': '1, 999, 5e8, 1e9-1, 1e9, 1e9+1, 1.5e9, 2e9-1, 2e9, 3.6e12, 2^53+1', 'wrong': sum(len(v) for v in bad.values()), 'late_by_at_most_1ms_tolerated': late_ok}
+                                    'timeouts_ns': '1, 999, 5e8, 1e9-1, 1e9, 1e9+1, 1.5e9, 2e9-1, 2e9, 3.6e12, 2^53+1', 'negative_timeouts': '-1, -2, -5, -1e9, -2^32, -2^63: must block without (or with a far) deadline', 'wrong': sum(len(v) for v in bad.values()), 'late_by_at_most_1ms_tolerated': late_ok}
     return len(lines)
 
 
